@@ -340,6 +340,7 @@ def gen_case(rng, thorough: bool, i: int) -> dict:
 
 def run(ctx: Ctx):
     ctx.lean_gate()
+    ctx.cov["timing_s"] = {"lean_gate": round(ctx.elapsed(), 1)}
     ctx.anchors(ANCHORS)
     ctx.cov["rule"] = (
         "templates of seeded small single-Einsum specs (matmul and 3-rank Einsums, 2-3 memory levels, finite/infinite memories, optional "
@@ -376,7 +377,9 @@ def run(ctx: Ctx):
         for i in range(n):
             cases.append(gen_case(rng, ctx.thorough, i))
     workers = min(int(os.environ.get("AFV_WORKERS", "4")), 4)
+    _t_pool = ctx.elapsed()
     results = ML.pool_map(work, cases, workers=workers)
+    ctx.cov["timing_s"]["workers"] = round(ctx.elapsed() - _t_pool, 1)
 
     stats = ctx.cov.setdefault("template_status", {})
     wrong_goals = []
